@@ -213,4 +213,4 @@ def _m2(op, alias):
     return u
 for _op in ('mul_2exp', 'div_2exp'):
     for _al in (0, 1):
-        UNITS.append(_m2(_op, _al))
+        UNITS.append(_m2(_op, _al)); UNITS[-1]['tier'] = 'off'        # not decided yet on the unchanged tree (DESIGN 11.3); the bounded unit mpq_2exp_enum stands in
